@@ -1,4 +1,5 @@
 import Xo.Props.C08
+import Xo.Props.C10
 /-! C09 — copy-construction yields an equal, storage-disjoint object (property theorems only).
 Reference-free types are copied byte for byte (`update_from_xbuffer`, into the same buffer, another buffer or another context -
 the model's `copyBytes` from any source memory into any destination memory).  Types holding references are rebuilt field- /
@@ -91,11 +92,95 @@ theorem C09_source_unaffected (t : Ty) (v : Val) (hw : t.WF) (hc : Conf t v) (hs
   have : ¬ (dst ≤ i ∧ i < dst + bytes.length) := by rw [hlen]; omega
   simp [this]
 
+theorem leaf_within_size (t : Ty) (v : Val) (hw : t.WF) (hc : Conf t v) (p : List Nat) (lo w : Nat)
+    (hl : leafAt t v p = some (lo, w)) : lo + w ≤ vsize t v := by
+  obtain ⟨_, _, _, _, _, _, _, _, _, _, _, h⟩ := leaf_decomp p t v lo w 0 hw hc hl (Nat.pow_pos (by decide))
+  exact h
+
+/-- the byte copy of a region that holds a written object holds the written object at the destination -/
+theorem copy_agree (t : Ty) (v : Val) (hw : t.WF) (hc : Conf t v)
+    (m0 : Mem) (src : Nat) (hb0 : src + vsize t v ≤ m0.length) (M : Mem) (hlM : src + vsize t v ≤ M.length)
+    (hM : Agree M (apply (shift src (patchesD t v)) m0) src (src + vsize t v))
+    (D : Mem) (dst : Nat) (hbD : dst + vsize t v ≤ D.length) :
+    ∃ m1 : Mem, m1.length = D.length ∧
+      Agree (copyBytes M src (vsize t v) D dst) (apply (shift dst (patchesD t v)) m1) dst (dst + vsize t v) := by
+  have hwin := withinD t v hw hc
+  have hrl0 : (readAt m0 src (vsize t v)).length = vsize t v := by simp [readAt]; omega
+  have hrlM : (readAt M src (vsize t v)).length = vsize t v := by simp [readAt]; omega
+  refine ⟨writeAt D dst (readAt m0 src (vsize t v)), length_writeAt D dst _ (by rw [hrl0]; exact hbD), ?_⟩
+  have hl1 : (writeAt D dst (readAt m0 src (vsize t v))).length = D.length := length_writeAt D dst _ (by rw [hrl0]; exact hbD)
+  intro j hj1 hj2
+  obtain ⟨i, rfl⟩ : ∃ i, j = dst + i := ⟨j - dst, by omega⟩
+  have hi : i < vsize t v := by omega
+  have htr := apply_translate (patchesD t v) (vsize t v) hwin m0 (writeAt D dst (readAt m0 src (vsize t v))) src dst hb0
+    (by rw [hl1]; exact hbD)
+    (by
+      intro k hk
+      rw [getElem?_writeAt D dst _ (by rw [hrl0]; exact hbD)]
+      have : dst ≤ dst + k ∧ dst + k < dst + (readAt m0 src (vsize t v)).length := by rw [hrl0]; omega
+      simp only [this, and_self, ↓reduceIte]
+      rw [getElem?_readAt]; simp [hk]) i hi
+  rw [htr, ← hM (src + i) (by omega) (by omega)]
+  unfold copyBytes
+  rw [getElem?_writeAt D dst _ (by rw [hrlM]; exact hbD)]
+  have : dst ≤ dst + i ∧ dst + i < dst + (readAt M src (vsize t v)).length := by rw [hrlM]; omega
+  simp only [this, and_self, ↓reduceIte]
+  rw [getElem?_readAt]; simp [hi]
+
+/-- **a later write to either never shows through the other** (copy in the SAME buffer, at a disjoint extent as the allocator
+guarantees): after the copy both read the value; a store of any scalar element of the copy is read by the copy as exactly that
+element replaced and leaves the source's value untouched - and the other way round -/
+theorem C09_writes_do_not_show_through (t : Ty) (v : Val) (hw : t.WF) (hc : Conf t v) (hs : vsize t v < 2 ^ 64)
+    (m0 : Mem) (src : Nat) (hb0 : src + vsize t v ≤ m0.length) (M : Mem) (hlen : M.length = m0.length)
+    (hM : Agree M (apply (shift src (patchesD t v)) m0) src (src + vsize t v))
+    (dst : Nat) (hbd : dst + vsize t v ≤ M.length) (hd : dst + vsize t v ≤ src ∨ src + vsize t v ≤ dst)
+    (p : List Nat) (lo w b : Nat) (hl : leafAt t v p = some (lo, w)) (hbv : b < 256 ^ w) :
+    let C := copyBytes M src (vsize t v) M dst
+    readD t C src = v.norm ∧ readD t C dst = v.norm ∧
+    ∃ v', updAt t v p b = some v' ∧
+      readD t (setScalar C (dst + lo) w b) dst = v'.norm ∧ readD t (setScalar C (dst + lo) w b) src = v.norm ∧
+      readD t (setScalar C (src + lo) w b) src = v'.norm ∧ readD t (setScalar C (src + lo) w b) dst = v.norm := by
+  intro C
+  have hrlM : (readAt M src (vsize t v)).length = vsize t v := by simp [readAt]; omega
+  have hlC : C.length = M.length := length_writeAt M dst _ (by rw [hrlM]; exact hbd)
+  -- the source's extent is untouched by the copy
+  have hCs : Agree C (apply (shift src (patchesD t v)) m0) src (src + vsize t v) := by
+    intro i h1 h2
+    rw [← hM i h1 h2]
+    show (writeAt M dst (readAt M src (vsize t v)))[i]? = M[i]?
+    rw [getElem?_writeAt M dst _ (by rw [hrlM]; exact hbd)]
+    have : ¬ (dst ≤ i ∧ i < dst + (readAt M src (vsize t v)).length) := by rw [hrlM]; omega
+    simp [this]
+  obtain ⟨m1, hl1, hCd⟩ := copy_agree t v hw hc m0 src hb0 M (by omega) hM M dst hbd
+  have hin := leaf_within_size t v hw hc p lo w hl
+  refine ⟨rtD t v hw hc hs m0 src hb0 C hCs, rtD t v hw hc hs m1 dst (by rw [hl1]; exact hbd) C hCd, ?_⟩
+  obtain ⟨v', u1, _, _, _, rd⟩ := set_leaf_rt t v hw hc hs m1 dst (by rw [hl1]; exact hbd) C hCd (by rw [hlC, hl1]) p lo w b hl hbv
+  obtain ⟨v'', u2, _, _, _, rs⟩ := set_leaf_rt t v hw hc hs m0 src hb0 C hCs (by rw [hlC, hlen]) p lo w b hl hbv
+  have e : v'' = v' := by rw [u1] at u2; exact (Option.some.inj u2).symm
+  subst e
+  refine ⟨v'', u1, rd, ?_, rs, ?_⟩
+  · exact C10_other_parts_unchanged_partial m0 t v hw hc hs src hb0 C hCs (by rw [hlC, hlen]) (dst + lo) w b
+      (by rw [hlC]; omega) (by omega)
+  · exact C10_other_parts_unchanged_partial m1 t v hw hc hs dst (by rw [hl1]; exact hbd) C hCd (by rw [hlC, hl1]) (src + lo) w b
+      (by rw [hlC, hlen]; omega) (by omega)
+
 /-! non-vacuity: a dynamic struct copied from offset 3 of one memory to offset 40 of another -/
 example :
     readD (.struct [.scalar 2, .string]) (copyBytes
       (apply (shift 3 (patchesD (.struct [.scalar 2, .string]) (.struct [.bits 513, .str [104, 105]]))) (List.replicate 64 0xA5))
       3 32 (List.replicate 100 0x11) 40) 40 = .struct [.bits 513, .str [104, 105]] := by
   rfl
+
+/-! non-vacuity of `C09_writes_do_not_show_through`: the same struct copied inside ONE memory from offset 3 to offset 40; element
+[0] (2 bytes at +8, after the size word) of the copy is then stored: the copy reads the new element, the source the old one -/
+private def exT : Ty := .struct [.scalar 2, .string]
+private def exV : Val := .struct [.bits 513, .str [104, 105]]
+private def exM : Mem := apply (shift 3 (patchesD exT exV)) (List.replicate 100 0xA5)
+private def exC : Mem := copyBytes exM 3 (vsize exT exV) exM 40
+example :
+    leafAt exT exV [0] = some (8, 2) ∧ 40 + vsize exT exV ≤ exM.length ∧ 3 + vsize exT exV ≤ 40 ∧
+    readD exT (setScalar exC (40 + 8) 2 7) 40 = .struct [.bits 7, .str [104, 105]] ∧
+    readD exT (setScalar exC (40 + 8) 2 7) 3 = exV := by
+  refine ⟨by decide +kernel, by decide +kernel, by decide +kernel, rfl, rfl⟩
 
 end Lay
